@@ -825,6 +825,8 @@ def cmp_c11(payload, impl, model):
         kv = dict(_KV.findall(impl))
         if kv.get("indep") != "1":
             return viol("the clone is not independent: a mutation through one side is visible through the other")
+        if kv.get("shared", "0") != "0":
+            return viol("the clone shares %s piece(s) of mutable storage (backing array, map table or pointer target) with its source" % kv.get("shared"))
         if kv.get("srcsame") != "1":
             return viol("Clone modified its source")
         if kv.get("eq") != "1":
